@@ -46,7 +46,7 @@ func H_C12_Truncate() {
 	p := fs.Path("f.rio")
 	offs, size := vWriteFile(fs, p, comp, 64, recs)
 	file := fs.ReadFile(p)
-	cut := vrt.Range("cut", 0, int(size))
+	cut := vrt.RangeClamp("cut", 0, int(size)) // (the natively compressed file is not as long as the stand-in one)
 	fs.WriteFile(p, file[:cut])
 
 	// records wholly inside the prefix
